@@ -5,10 +5,11 @@ from harness import dtwgen
 
 COQ_FILES = ["theories/BandTie.v", "theories/Prune.v", "theories/PyDist.v", "theories/PyDistProofs.v",
              "theories/PyDistPrune.v", "gen/Gen_cdist.v", "theories/CDistCanon.v", "theories/CDistTie.v",
-             "theories/CDistProofs.v", "theories/CDistSpec.v", "props/C03.v"]
+             "theories/CDistProofs.v", "theories/CDistSpec.v", "gen/Gen_ced.v", "theories/CEd.v", "props/C03.v"]
 THEOREMS = [("DVProps.C03", "C03_pruning_sound_partial"), ("DVProps.C03", "C03_max_dist_result_partial"),
             ("DVProps.C03", "C03_euclidean_bound_keeps_value"), ("DVProps.C03", "C03_pruned_code_model_exact"),
-            ("DVProps.C03", "C03_c_kernel_result_is_bounded_value"), ("DVProps.C03", "C03_c_kernel_no_bound_no_cut")]
+            ("DVProps.C03", "C03_c_kernel_result_is_bounded_value"), ("DVProps.C03", "C03_c_kernel_no_bound_no_cut"),
+            ("DVProps.C03", "C03_c_use_pruning_keeps_value")]
 TRUSTED_BASE = [
     "Coq 8.16.1 kernel (no native_compute)",
     "the sc/ec/ec_next/smaller_found/break bookkeeping of dtw.distance is modelled as written (PyDist.distp_model, "
@@ -17,8 +18,9 @@ TRUSTED_BASE = [
     "(oracle command pydistp) on ALL settings, including begin psi where model and code are unsound alike (F06)",
     "the C kernel dtw_distance is regenerated WHOLE from dd_dtw.c (tools/cfun.py -> Gen_cdist.v, bookkeeping included) "
     "and PROVED to return the specification value cut at the bound in use, for every bound "
-    "(C03_c_kernel_result_is_bounded_value; the other three kernels under C02); the value of "
-    "euclidean_distance_squared (the bound with use_pruning) is an oracle parameter of that theorem",
+    "(C03_c_kernel_result_is_bounded_value; the other three kernels under C02); with use_pruning the bound is the "
+    "value the regenerated euclidean_distance_squared returns (Gen_ced.v), and where ED is a valid upper bound the "
+    "kernel returns the unpruned value (C03_c_use_pruning_keeps_value, no oracle left)",
     "partial: bookkeeping of the C warping-paths kernels: covered by the abstract theorem (any strategy skipping only "
     "cells above the bound) + correspondence",
     "extraction + driver.ml",
